@@ -80,8 +80,9 @@ class Report:
         for i in self.instances:
             if i.status in (HOLDS, VIOLATION):
                 counts[i.rule] += 1
-        _known_now = {k["key"] for k in load_known(known_path) if k.get("property") == self.pid and k.get("status") == "known"}
-        has_violation = any(i.status == VIOLATION and i.key not in _known_now for i in self.instances)
+        from .model import canon_key
+        _known_now = {canon_key(k["key"]) for k in load_known(known_path) if k.get("property") == self.pid and k.get("status") == "known"}
+        has_violation = any(i.status == VIOLATION and canon_key(i.key) not in _known_now for i in self.instances)
         for r, mn in self.min_instances.items():
             # a rule may legitimately stop early after reporting a violation its other parts depend on
             if counts[r] < mn and not has_violation:
@@ -90,13 +91,17 @@ class Report:
                     f"(anchors moved or recogniser no longer matches; refusing to pass vacuously)")
 
         known = [k for k in load_known(known_path) if k.get("property") == self.pid]
-        known_keys = {k["key"]: k for k in known if k.get("status") == "known"}
-        fixed_keys = {k["key"]: k for k in known if str(k.get("status", "")).startswith("fixed")}
-
+        # keys are compared with the code quoted in back-ticks canonicalised, so that renaming a local variable neither hides
+        # nor resurrects a finding (model.canon_key)
+        _known_c = {canon_key(k["key"]): k for k in known if k.get("status") == "known"}
+        _fixed_c = {canon_key(k["key"]): k for k in known if str(k.get("status", "")).startswith("fixed")}
         viol = [i for i in self.instances if i.status == VIOLATION]
+        known_keys = {i.key: _known_c[canon_key(i.key)] for i in viol if canon_key(i.key) in _known_c}
+        fixed_keys = {i.key: _fixed_c[canon_key(i.key)] for i in viol if canon_key(i.key) in _fixed_c}
         new_viol = [i for i in viol if i.key not in known_keys]
         known_hit = [i for i in viol if i.key in known_keys]
-        stale_known = [k for k in known_keys if k not in {i.key for i in viol}]
+        _viol_c = {canon_key(i.key) for i in viol}
+        stale_known = [k["key"] for c, k in _known_c.items() if c not in _viol_c]
 
         os.makedirs(self.evidence_dir, exist_ok=True)
         replay_dir = os.path.join(self.evidence_dir, "replay")
